@@ -26,6 +26,7 @@ import os
 import queue
 import tempfile
 import threading
+import time
 import warnings
 
 from hypothesis import strategies as st
@@ -1342,8 +1343,16 @@ def _execute_pool(case):
                           'gives %r' % (kind, got, want))
                 break
         if out is None:
-            gc.collect()
-            n = mgr._number_of_objects()
+            # (a result proxy may still be referenced from a frame that is
+            # being unwound in another thread on a loaded machine: an object
+            # that is really not disposed of stays for good, so waiting a few
+            # seconds for the count loses nothing)
+            for _ in range(50):
+                gc.collect()
+                n = mgr._number_of_objects()
+                if n == 1:
+                    break
+                time.sleep(0.1)
             if n != 1:
                 out = bad('C20/registered/not-disposed', '%d objects in the '
                           'server after every result proxy was released; only '
